@@ -45,3 +45,36 @@ func VerifC13Source(n int) {
 	}
 	verif_reach("C13.source.ok")
 }
+
+// VerifC13MsgSource: the same for MessageStore.ListEvents: n messages of one sender whose key is known, log entries that
+// ARRIVED in a free order, listed oldest first or exactly reversed, each with its original payload.
+func VerifC13MsgSource(n int) {
+	w := c08Setup(n)
+	verif_assume(w.rcv.RegisterChainKey(w.ctx, w.g, w.sndDev, w.enc) == nil)
+	canon := w.log.Values().Slice()
+	verif_assume(len(canon) == n)
+	verif_logPermute(w.log)
+	reverse := verif_anyBool("reverse")
+	ch, err := w.store.ListEvents(w.ctx, nil, nil, reverse)
+	verif_assert(err == nil, "C13.msgsource: listing succeeds")
+	if err != nil {
+		return
+	}
+	var got []*protocoltypes.GroupMessageEvent
+	for ev := range ch {
+		got = append(got, ev)
+	}
+	verif_assert(len(got) == n, "C13.msgsource: every message is listed once")
+	if len(got) != n {
+		return
+	}
+	for i := 0; i < n; i++ {
+		k := i
+		if reverse {
+			k = n - 1 - i
+		}
+		verif_assert(verif_bytesEq(got[i].EventContext.Id, canon[k].GetHash().Bytes()), "C13.msgsource: listing follows log order (oldest first, or exactly reversed), not arrival order")
+		verif_assert(verif_bytesEq(got[i].Message, w.plain[k]), "C13.msgsource: a listed message carries its original payload")
+	}
+	verif_reach("C13.msgsource.ok")
+}
